@@ -426,6 +426,7 @@ func TestCheck(t *testing.T) {
 			"the data-race clause is decided by the separate free-running -race pass",
 		},
 		Scenarios: scenarios,
+		Post:      sched.RacePost("TestC07"),
 		Budget:    map[string]time.Duration{"quick": 5 * time.Minute, "thorough": 60 * time.Minute},
 	})
 }
